@@ -14,13 +14,15 @@ func init() {
 		ID: "C06",
 		Explanation: "Decides the immutability clause of C06 ('no operation ever changes a previously obtained list') structurally: rule FRESH shows that every instruction in pkg/persistent/vector that writes memory (Store, copy, append, map update) writes into memory allocated during the same activation (or returned by a callee all of whose returns are fresh), or into an iterator's private cursor state. So no operation can write into a node, tail or header reachable from an existing Vector. It does not decide that results equal the array model.",
 		NotCovered:  "agreement of results with a plain array (lengths, height transitions, slices of slices, out-of-range rejection, iteration order) is value-level and not decided",
-		Rules:       []string{"FRESH: every write in the persistent vector package targets fresh or cursor-owned memory", "API-OPAQUE: no exported function or interface method of the package returns a slice, pointer or array aliasing internal storage"},
+		Rules:       []string{"FRESH: every write in the persistent vector package targets fresh or cursor-owned memory", "API-OPAQUE: no exported function or interface method of the package returns a slice, pointer or array aliasing internal storage", "SLICE-OWN-BOUNDS: a slice of a list compares every index with its own extent before delegating to the underlying vector", "NODE-INDEX: every index into a fixed-size tree node is proven to lie inside it"},
 		Patterns:    []string{"./pkg/persistent/..."},
 		Run: func(p *core.Program, r *core.Report) {
 			runFresh(p, r, "FRESH", pkgVector)
 			runAPIOpaque(p, r, pkgVector)
+			runSliceOwnBounds(p, r)
+			runNodeIndex(p, r)
 		},
-		MinCounts: map[string]int{"FRESH": 30, "API-OPAQUE": 5},
+		MinCounts: map[string]int{"FRESH": 30, "API-OPAQUE": 5, "SLICE-OWN-BOUNDS": 4, "NODE-INDEX": 4},
 		Trusted:   trustedBase,
 		Controls: []core.Control{
 			{Name: "doAssoc-mutates-in-place", Rule: "FRESH", File: "pkg/persistent/vector/vector.go", Old: "m := clone(n)\n\tif height == 0 {", New: "m := n\n\tif height == 0 {", Fire: true, Want: "doAssoc", Quick: true},
@@ -32,6 +34,14 @@ func init() {
 				Old: "\t\tm := clone(n)\n\t\tm[idx] = nil\n\t\treturn m", New: "\t\tm := n\n\t\tm[idx] = nil\n\t\treturn m", Fire: true, Want: "popTail"},
 			{Name: "benign-make-copy-instead-of-append-nil", Rule: "FRESH", File: "pkg/persistent/vector/vector.go",
 				Old: "newTail := append([]any(nil), v.tail...)", New: "newTail := make([]any, len(v.tail))\n\t\tcopy(newTail, v.tail)", Fire: false},
+			{Name: "revert-fix-nested-slice-unchecked", Rule: "SLICE-OWN-BOUNDS", File: "pkg/persistent/vector/vector.go",
+				Old: "\tif i < 0 || i > j || j > s.Len() {\n\t\treturn nil\n\t}\n\treturn s.v.SubVector(s.begin+i, s.begin+j)", New: "\treturn s.v.SubVector(s.begin+i, s.begin+j)", Fire: true, Want: "SubVector", Quick: true},
+			{Name: "slice-index-lower-bound-dropped", Rule: "SLICE-OWN-BOUNDS", File: "pkg/persistent/vector/vector.go",
+				Old: "\tif i < 0 || i >= s.Len() {\n\t\treturn nil, false\n\t}", New: "\tif i >= s.Len() {\n\t\treturn nil, false\n\t}", Fire: true, Want: "Index"},
+			{Name: "benign-slice-bounds-against-end", Rule: "SLICE-OWN-BOUNDS", File: "pkg/persistent/vector/vector.go",
+				Old: "\tif i < 0 || i >= s.Len() {\n\t\treturn nil, false\n\t}", New: "\tif i < 0 || i >= s.end-s.begin {\n\t\treturn nil, false\n\t}", Fire: false},
+			{Name: "iterator-path-index-unmasked", Rule: "NODE-INDEX", File: "pkg/persistent/vector/vector.go",
+				Old: "\t\tidx := (begin >> shift) & chunkMask", New: "\t\tidx := begin >> shift", Fire: true, Want: "newIteratorWithRange"},
 			{Name: "benign-inline-clone", Rule: "FRESH", File: "pkg/persistent/vector/vector.go",
 				Old: "m := clone(n)\n\tif height == 0 {", New: "a := *n\n\tm := node(&a)\n\tif height == 0 {", Fire: false},
 		},
